@@ -83,7 +83,8 @@ class StandardNode(XmlNode):
         if obj is None and not self.nillable:
             obj = ""
 
-        if self.datatype.wrapper:
+        # A value that could not be converted is kept as given, it can't be wrapped
+        if self.datatype.wrapper and isinstance(obj, self.datatype.type):
             obj = self.datatype.wrapper(obj)
 
         if self.derived_factory:
